@@ -7,6 +7,8 @@ TEXTS = [
     '\n', '\r\n', 'ĊċĊ', 'tab\there', '    indented\n  less\n', 'a\n\n\n', '﻿',
     'mixed\r\nthen\nlf\n', 'lf\nthen\r\ncrlf\r\n', 'ഊ਍', 'x' * 130, 'l1\nl2\nl3\nl4\nl5\nl6\nl7\n',
     '\x85next', 'café\n', 'あいう', 'ÿþ', ' ', '\x0b\x0c',
+    # code units that contain the bytes of an encoded LF across a character boundary (UTF-16/32, N12)
+    '\u0a97\u4e00 x\r\nsecond\r\n', '\u4e00\u0a97\r\nz', '\u0a0d\u0a00\r\n', 'a\u0a00\u000a',
 ]
 EMPTY_TEXT = ''
 
